@@ -25,6 +25,7 @@ import GdVerif.Run.GenUnreal2
 import GdVerif.Run.Unreal2Faults
 import GdVerif.Run.Minecraft
 import GdVerif.Run.GenMinecraft
+import GdVerif.Run.McFaults
 import GdVerif.Run.Gs3
 import GdVerif.Run.Jc2m
 import GdVerif.Run.GenGs3
@@ -62,6 +63,7 @@ def allEntries : List (String × (List String → String)) := List.flatten [
   unreal2Entries,
   unreal2FaultEntries,
   McDrv.minecraftEntries,
+  McGen.mcFaultEntries,
   gs3Entries,
   gs3FaultEntries,
   jc2mEntries,
